@@ -158,7 +158,7 @@ func c18IDs(p []string, ds string) []string {
 }
 
 // c18GenEnt draws an entity of dataset ds: a version counter property and,
-// for every hop whose references this dataset's entities hold, 0-2 targets.
+// for every hop whose references this dataset's entities hold, 0-4 targets.
 func c18GenEnt(t *rapid.T, p []string, cfg c18Cfg, ds string) *kit.Ent {
 	e := &kit.Ent{ID: rapid.SampledFrom(c18IDs(p, ds)).Draw(t, "id"), Props: map[string]any{p[0] + ":v": rapid.IntRange(0, 2).Draw(t, "v")}, Refs: map[string]any{}}
 	path := cfg.path()
@@ -173,8 +173,9 @@ func c18GenEnt(t *rapid.T, p []string, cfg c18Cfg, ds string) *kit.Ent {
 		pool := c18IDs(p, target)
 		switch rapid.IntRange(0, 5).Draw(t, "refKind") {
 		case 0: // no link
-		case 1:
-			n := rapid.IntRange(0, 2).Draw(t, "nref")
+		case 1, 2:
+			// up to 4 targets: more links than the job's batch size, so that relation queries are paged
+			n := rapid.IntRange(0, 4).Draw(t, "nref")
 			arr := make([]any, n)
 			for k := range arr {
 				arr[k] = rapid.SampledFrom(pool).Draw(t, "tgt")
